@@ -51,7 +51,7 @@ reg(Prop('C03', lambda r, i, t: pc.gen_item(r, i, t, 'C03'), pc.eval_C03, 6000, 
 reg(Prop('C04', lambda r, i, t: pc.gen_item(r, i, t, 'C04'), pc.eval_C04, 8000, 120000, RULE_COMPUTE, ASSUME_COMPUTE,
          ['C04_new_leaf', 'C04_join_one', 'C04_insignificant_iff', 'C04_branch', 'C04_one_remains', 'C04_none_remains', 'C04_unique_of_distinct', 'C04_minDelta_merge', 'C04_minNpix', 'C04_allTrue', 'C04_seeds_exact']))
 reg(Prop('C05', lambda r, i, t: pc.gen_item(r, i, t, 'C05'), pc.eval_C05, 6000, 80000, RULE_COMPUTE, ASSUME_COMPUTE,
-         ['C05_parented_leaf_significant', 'C05_meeting_pixel', 'C05_builtin', 'C05_orphan_leaf']))
+         ['C05_parented_leaf_significant', 'C05_meeting_pixel', 'C05_builtin', 'C05_orphan_leaf', 'C05_leaf_peak_regmax', 'C05_leaves_distinct_maxima', 'C05_regmax_has_leaf']))
 reg(Prop('C06', lambda r, i, t: pc.gen_item_C06(r, i, t, 'C06'), pc.eval_C06, 5000, 60000, RULE_COMPUTE, ASSUME_COMPUTE,
          ['C06_label_iff', 'C06_unlabelled_iff', 'C06_indices_own', 'C06_indices_subtree', 'C06_npix_subtree', 'C06_vmax_add', 'C06_vmin_add', 'C06_vmax_merge', 'C06_vmin_merge', 'C06_vmax_is_max', 'C06_vmin_is_min', 'C06_peak_own', 'C06_peak_subtree']))
 
@@ -71,7 +71,7 @@ reg(Prop('C07', ph.gen_item_C07, ph.eval_C07, 5000, 60000, RULE_HISTORY, ASSUME_
           'C07_ids_preserved', 'C07_idempotent', 'C07_noop', 'C07_params_monotone', 'C07_params_zero_inherits']))
 reg(Prop('C08', ph.gen_item_C08, ph.eval_C08, 5000, 60000,
          "pairs (compute loosely then prune strictly) vs (compute strictly) on the same seeded array; modes: min_npix only, "
-         "min_delta only, both; non-trivial = the prune removed a structure", ASSUME_COMPUTE, ['C08_counterexample_criterion', 'C08_ruleOrig_agrees_on_witness', 'C08_ruleOrig_eq_computeTime', 'C08_npix', 'C08_npix_same_test', 'C08_zero_inherits']))
+         "min_delta only, both; non-trivial = the prune removed a structure", ASSUME_COMPUTE, ['C08_counterexample_criterion', 'C08_ruleOrig_agrees_on_witness', 'C08_ruleOrig_eq_computeTime', 'C08_npix', 'C08_full', 'C08_npix_same_test', 'C08_zero_inherits']))
 reg(Prop('C14', ph.gen_item_C14, ph.eval_C14, 3000, 40000,
          "histories of 2-10 operations (cache-warming queries, prunes, Newick export, save/load in both formats, plotter "
          "construction) on a seeded computed dendrogram; after every step all observables are compared with the model "
@@ -166,3 +166,6 @@ for _p in ('C01', 'C02', 'C03', 'C04', 'C05'):
     PROPS[_p].exhaustive = (_gen.EXHAUSTIVE_TOTAL, lambda i: {'case': _gen.exhaustive_compute_case(i), 'ops': []},
                             'all value orderings on grids %r and all arrays over a 3-letter alphabet on grids %r, each under (min_delta, min_npix) in %r'
                             % (_gen.PERM_GRIDS, _gen.ALPHA_GRIDS, _gen.PARAM_SETS))
+
+PROPS['C18'].exhaustive = (len(_gen.FOREST_SHAPES) * 6, pio.exhaustive_item_C18,
+                           'all %d ordered forest shapes with <= 7 structures (built through the library loader, one pixel per structure) x reverse on/off x three sort keys' % len(_gen.FOREST_SHAPES))
